@@ -1,5 +1,5 @@
 CONSTANTS
-  XSet <- XSix
+  XSet <- XFive
   LatticeK = 2
   FailMags = {1, 10}
 SPECIFICATION Spec
